@@ -316,7 +316,7 @@ def search(run, corr, deep):
         corr.count(None, "oracle: msgcodec %s v%d" % (meta["dir"], meta["ver"]))
         if not a.startswith("ok "):
             w = {"kind": "msgcodec-rejected", "pdu": cls, "msg": req, "datagram": hexb, "impl": a,
-                 "spec": "accepted with identical field values"}
+                 "spec": "accepted with identical field values", "want": cd.val_to_line(want)}
             w.update(meta)
             wit.append(w)
             continue
@@ -324,7 +324,8 @@ def search(run, corr, deep):
         got, _ = cd.parse_val(tok, 1)
         n = int(tok[-1])
         if n != len(cd.unhx(hexb)):
-            wit.append(dict(meta, kind="msgcodec-consumed", pdu=cls, msg=req, datagram=hexb, impl=a, spec="whole datagram consumed"))
+            wit.append(dict(meta, kind="msgcodec-consumed", pdu=cls, msg=req, datagram=hexb, impl=a, spec="whole datagram consumed",
+                            want=cd.val_to_line(want)))
             continue
         diff = [k for k in want if got.get(k) != want[k]]
         if diff:
@@ -332,7 +333,7 @@ def search(run, corr, deep):
             extra = (len(got[k0]) - len(want[k0])) if isinstance(got.get(k0), bytes) and isinstance(want[k0], bytes) else None
             w = {"kind": "msgcodec-fields-differ", "pdu": cls, "msg": req, "datagram": hexb, "field": k0,
                  "impl": cd.val_to_line(got.get(k0)) if k0 in got else "missing", "spec": cd.val_to_line(want[k0]),
-                 "extra_octets": extra}
+                 "extra_octets": extra, "want": cd.val_to_line(want)}
             w.update(meta)
             wit.append(w)
     # (2) every class: encode = documented layout, decode(encode) = value, any number of sub-PDUs intact
@@ -356,7 +357,7 @@ def search(run, corr, deep):
         corr.count(None, "oracle: %s encode" % name)
         want = spec_bytes(name, v)
         if a != "ok " + cd.hx(want):
-            wit.append({"kind": "layout", "pdu": name, "value": cd.val_to_line(v), "impl": a[:400], "spec": "ok " + cd.hx(want)[:400],
+            wit.append({"kind": "layout", "pdu": name, "value": cd.val_to_line(v), "impl": a, "spec": "ok " + cd.hx(want),
                         "mod": v.get('mod'), "nope": v.get('nope')})
             continue
         r2.append("codec.pdu.dec %s %s" % (name, cd.hx(want))); m2.append((name, v, 'roundtrip', "ok %s %d" % (cd.val_to_line(v), len(want))))
@@ -403,7 +404,7 @@ def search(run, corr, deep):
             if tok[-1] == want.split()[-1] and same_fields(v, got):
                 continue
         if a != want:
-            wit.append({"kind": kind, "pdu": name, "request": r[:1500], "impl": a[:600], "spec": want[:600],
+            wit.append({"kind": kind, "pdu": name, "request": r, "impl": a, "spec": want,
                         "mod": v.get('mod'), "nope": v.get('nope'), "batched": len(v.get('bpdu', []))})
     wit.sort(key=lambda w: len(json.dumps(w)))
     seen = set()
@@ -438,19 +439,31 @@ def replay(run, path):
         if not w:
             print("replay: no concrete input recorded (%s)" % json.dumps(v.get("broken"))[:400])
             continue
+        kind = w["kind"]
         if "msg" in w:
             a = impl([w["msg"]])[0]
             out = impl(["codec.pdu.dec %s %s" % (w["pdu"], a.split()[1])])[0] if a.startswith("ok ") else a
-            print("replay %s\n  message : %s\n  datagram: %s\n  impl    : %s\n  spec    : %s" % (w["kind"], w["msg"][:200], a[:200], out[:300], w.get("spec")))
-            bad += 1 if (not out.startswith("ok ") or w["kind"] != "msgcodec-rejected") else 0
+            still = True
+            if out.startswith("ok ") and a.startswith("ok "):
+                tok = out.split()
+                got, _ = cd.parse_val(tok, 1)
+                still = int(tok[-1]) != len(cd.unhx(a.split()[1])) or not same_fields(cd.line_to_val(w["want"]), got)
+            print("replay %s\n  message : %s\n  datagram: %s\n  impl    : %s\n  spec    : %s %s" % (
+                kind, w["msg"][:200], a[:200], out[:300], w.get("spec")[:200], w["want"][:200]))
         elif "request" in w:
             out = impl([w["request"]])[0]
-            print("replay %s\n  request: %s\n  impl   : %s\n  spec   : %s" % (w["kind"], w["request"][:300], out[:300], w.get("spec")))
-            bad += out != w.get("spec")
+            still = out != w["spec"]
+            if still and kind in ("roundtrip", "reserved-ignored") and out.startswith("ok ") and w["spec"].startswith("ok "):
+                t1, t2 = out.split(), w["spec"].split()
+                still = t1[-1] != t2[-1] or not same_fields(cd.parse_val(t2, 1)[0], cd.parse_val(t1, 1)[0])
+            print("replay %s\n  request: %s\n  impl   : %s\n  spec   : %s" % (kind, w["request"][:300], out[:300], w["spec"][:300]))
         else:
             out = impl(["codec.pdu.enc %s %s" % (w["pdu"], w["value"])])[0]
-            print("replay %s\n  value: %s\n  impl : %s\n  spec : %s" % (w["kind"], w["value"][:300], out[:300], w.get("spec")))
-            bad += out[:400] != w.get("spec")[:400]
+            still = out != w["spec"]
+            print("replay %s\n  value: %s\n  impl : %s\n  spec : %s" % (kind, w["value"][:300], out[:300], w["spec"][:300]))
+        bad += bool(still)
     if bad:
         print("VIOLATION property=C17 replay=%s" % path)
+    else:
+        print("replay: no recorded input violates the property on this tree")
     return 1 if bad else 0
